@@ -1,7 +1,7 @@
 CONSTANTS
   Names = {"a", "b", "c"}
   ShapeIds = {1, 2, 3, 4, 5, 6, 7, 8, 9, 10, 11}
-  ExtNames = {"a", "b", "c"}
+  ExtNames = {"a", "c"}
   MaxMods = 4
   MaxExt = 2
   MaxToggle = 2
